@@ -12,7 +12,7 @@
 /// relation between the value an argument resolved to and what `This<T>` returns for it (global call style)
 pub open spec fn this_of_arg<T: FromValue>(r: ResolveResult, res: Result<This<T>, ExecutionError>) -> bool {
     match r {
-        Ok(v) => match T::fv_spec(v) { Ok(t) => res matches Ok(This(x)) && x == t, Err(e) => res == Err::<This<T>, ExecutionError>(e) },
+        Ok(v) => exists|x: Result<T, ExecutionError>| #[trigger] T::fv_post(v, x) && res == this_lift(x),
         Err(_) => res == Err::<This<T>, ExecutionError>(ExecutionError::MissingArgumentOrTarget),
     }
 }
@@ -25,6 +25,8 @@ pub open spec fn this_of_arg<T: FromValue>(r: ResolveResult, res: Result<This<T>
 //@verify resolvers.argument
 //@verify resolvers.all_arguments
 //@verify magic.from_value_for_value
+//@verify-macro magic.conv_from_value
+//@verify-macro magic.conv_from_value_opt
 //@verify magic.arg_expr_from_context
 //@verify magic.arg_value_from_context
 //@verify magic.this_from_context
